@@ -18,6 +18,10 @@ NA = {
 }
 
 CHECKS = {
+ "C15": dict(level="fault_enumeration", ref="DESIGN.md section 4 (C15)",
+   text="Seeded generation of REPL-style sessions on one interpreter; within each session every single crash point (each dynamic fault point of the crash-free run fails once: top level, nested calls, methods, fibers, nested fibers, try/finally, imported module bodies) is enumerated when the session has <= 30 of them, plus sampled multi-crash plans, uncaught throws at several depths, non-compiling snippets and Vm::reset as generated operations; each plan runs in the checked and release builds and is compared snippet-by-snippet with a session reference model, and the suffix after the last reset is replayed on a fresh interpreter (model-free metamorphic check). Evidence, not proof: sessions are sampled.",
+   note="Trusted: the session model and the runner's seams. Left open by the property and therefore executed without comparison (counted): later use of fibers that were active when a snippet failed, re-import of a module whose body failed.",
+   technique="deterministic simulation with fault injection: crash points injected through a host-native fault point into session histories on one Vm, session reference model + reset-vs-fresh metamorphic replay, single-crash enumeration per session"),
  "C09": dict(level="exploration", ref="DESIGN.md section 4 (C09)",
    text="Seeded search over fiber programs x schedules: the simulator's scheduler (PRNG, aware of every fiber's state through the reference model) decides at run time which fiber is resumed, with what value and how many arguments, when fibers are abandoned and replaced, and when illegal transfers are attempted; the real VM executes the tape in the checked and release builds (and a slice under collect-at-every-allocation with quarantine) and the complete event history must equal that of a coroutine reference model (one Python generator per fiber). A clean batch is evidence, not proof.",
    note="Trusted: the coroutine reference model and the runner's printer seam. Error classes of illegal transfers are implementation-confirmed; where two error conditions hold at once either class is accepted.",
